@@ -719,3 +719,255 @@ def run_history(impl, smeta, h, seed):
                              'stats': [str(getattr(obj, nm).dtype) for nm in ('running_mean', 'running_var') if getattr(obj, nm, None) is not None]})
     impl.reset_modes()
     return rec
+
+
+# ------------------------------------------------------------------------------------------------ non-contiguous operands
+# The first operand of an op is handed over in a non-contiguous memory layout; the result (dtype, values, 0-d sum, gradients)
+# must be that of the same op on the contiguous copy of the same values in the same dtype.
+LAYOUTS = ('transpose', 'movedim', 'unbind', 'slice', 'fortran', 'strided', 'broadcast0')
+
+
+def make_layout(impl, arr, layout):
+    """a Tensor whose data has the values of `arr` in a non-contiguous layout; returns None if the layout does not apply"""
+    np, sg = impl.np, impl.synapgrad
+    T = sg.Tensor
+    nd = arr.ndim
+    if nd < 2 and layout not in ('strided', 'slice'):
+        return None
+    if layout == 'transpose':            # made by the library itself: x.transpose(0, -1) of the swapped array
+        t = T(np.ascontiguousarray(np.swapaxes(arr, 0, nd - 1))).transpose(0, nd - 1)
+    elif layout == 'movedim':
+        t = T(np.ascontiguousarray(np.moveaxis(arr, 0, nd - 1))).movedim(nd - 1, 0)
+    elif layout == 'unbind':             # TF.unbind of a stack along the last axis: rollaxis views
+        big = np.stack([arr, arr + 1], axis=nd)
+        t = impl.TF.unbind(T(big), nd)[0]
+    elif layout == 'slice':              # x[..., ::2] of a tensor twice as wide
+        big = np.repeat(arr, 2, axis=nd - 1)
+        t = T(big)[(Ellipsis, slice(None, None, 2))]
+    elif layout == 'fortran':
+        t = T(np.asfortranarray(arr))
+    elif layout == 'strided':
+        big = np.zeros(arr.shape[:-1] + (2 * arr.shape[-1],), dtype=arr.dtype)
+        big[..., ::2] = arr
+        t = T(big[..., ::2])
+    elif layout == 'broadcast0':         # a 0-stride view: every row the same
+        row = arr[:1]
+        t = T(np.broadcast_to(row, arr.shape))
+    else:
+        raise ValueError(layout)
+    if t.data.flags['C_CONTIGUOUS'] and layout != 'broadcast0':
+        return None
+    t = T(t.data)                        # a leaf holding the very same (non-contiguous) buffer
+    assert t.data.flags['C_CONTIGUOUS'] is False or layout == 'broadcast0'
+    return t
+
+
+def layout_ops(impl):
+    """(name, shape of the first operand, domain, call(first operand tensor, rng, dtype) -> result tensor)"""
+    np, sg, TF, NF, nn = impl.np, impl.synapgrad, impl.TF, impl.NF, impl.nn
+    T = sg.Tensor
+
+    def other(rs, shape, dt, pos=False):
+        a = rs.uniform(0.5, 2.0, size=shape) if pos else rs.uniform(-2, 2, size=shape)
+        return T(a.astype(dt), requires_grad=True)
+
+    def lay(cls, kw):
+        def f(x, rs, dt):
+            np.random.seed(5)
+            m = cls(**kw)
+            for p in m.parameters():
+                p.data = p.data.astype(dt)
+            return m(x)
+        return f
+    ops = [
+        ('max_pool1d', (2, 3, 8), lambda x, rs, dt: NF.max_pool1d(x, 2, 2, 1, 1)),
+        ('max_pool2d', (2, 2, 6, 6), lambda x, rs, dt: NF.max_pool2d(x, 2, 1, 1, 1)),
+        ('avg_pool1d', (2, 3, 8), lambda x, rs, dt: NF.avg_pool1d(x, 3, 2, 1, 1)),
+        ('avg_pool2d', (2, 2, 6, 6), lambda x, rs, dt: NF.avg_pool2d(x, 2, 2)),
+        ('unfold', (2, 2, 5, 5), lambda x, rs, dt: NF.unfold(x, 2, 1, 1, 1)),
+        ('fold', (2, 8, 9), lambda x, rs, dt: NF.fold(x, (4, 4), (2, 2), 1, 1, 0)),
+        ('conv1d', (2, 2, 8), lambda x, rs, dt: NF.conv1d(x, other(rs, (3, 2, 2), dt), other(rs, (3,), dt), 1, 1, 1)),
+        ('conv2d', (2, 2, 5, 5), lambda x, rs, dt: NF.conv2d(x, other(rs, (3, 2, 2, 2), dt), other(rs, (3,), dt), 1, 1, 1)),
+        ('MaxPool2d', (2, 2, 6, 6), lay(nn.MaxPool2d, {'kernel_size': 2})),
+        ('AvgPool1d', (2, 3, 8), lay(nn.AvgPool1d, {'kernel_size': 2})),
+        ('Conv2d', (2, 2, 5, 5), lay(nn.Conv2d, {'in_channels': 2, 'out_channels': 3, 'kernel_size': 3, 'padding': 1})),
+        ('Unfold', (2, 2, 5, 5), lay(nn.Unfold, {'kernel_size': 2})),
+        ('add', (4, 6), lambda x, rs, dt: x + other(rs, (4, 6), dt)),
+        ('mul_scalar', (4, 6), lambda x, rs, dt: x * 0.3),
+        ('exp', (4, 6), lambda x, rs, dt: x.exp()),
+        ('sum_dim', (4, 6), lambda x, rs, dt: x.sum(dim=0)),
+        ('mean_all', (4, 6), lambda x, rs, dt: x.mean()),
+        ('max_dim', (4, 6), lambda x, rs, dt: x.max(dim=1)),
+        ('matmul', (4, 6), lambda x, rs, dt: x @ other(rs, (6, 3), dt)),
+        ('softmax', (4, 6), lambda x, rs, dt: NF.softmax(x, 1)),
+        ('log_softmax', (4, 6), lambda x, rs, dt: NF.log_softmax(x, -1)),
+        ('mse_loss', (4, 6), lambda x, rs, dt: NF.mse_loss(x, other(rs, (4, 6), dt))),
+        ('cross_entropy', (4, 6), lambda x, rs, dt: NF.cross_entropy(x, T(np.array([0, 5, 2, 3])))),
+        ('batch_norm', (4, 6), lambda x, rs, dt: NF.batch_norm(x, other(rs, (6,), dt), other(rs, (6,), dt))),
+        ('relu', (4, 6), lambda x, rs, dt: NF.relu(x)),
+        ('linear', (4, 6), lambda x, rs, dt: NF.linear(x, other(rs, (3, 6), dt), other(rs, (3,), dt))),
+    ]
+    return ops
+
+
+def layout_check(impl, opname, layout, dtype, seed=11):
+    """returns ('skip', why) | None (fine) | (class, expected, observed)"""
+    np, sg = impl.np, impl.synapgrad
+    op = [o for o in layout_ops(impl) if o[0] == opname][0]
+    rs = np.random.RandomState(seed)
+    arr = rs.uniform(-2, 2, size=op[1]).astype(dtype)
+    if layout == 'broadcast0':
+        arr = np.ascontiguousarray(np.broadcast_to(arr[:1], arr.shape))
+    impl.reset_modes()
+    x = make_layout(impl, arr, layout)
+    if x is None:
+        return ('skip', 'layout does not apply')
+    if not np.array_equal(x.data, arr):
+        return ('harness', 'same values', 'layout construction changed the values')
+    xc = sg.Tensor(np.ascontiguousarray(arr).copy())
+    res = []
+    for t in (x, xc):
+        t.requires_grad = True
+        r = op[2](t, np.random.RandomState(seed + 1), dtype)
+        s = r.sum()
+        s.backward()
+        res.append((r, s, t))
+    (r, s, t), (rc, sc, tc) = res
+    eps = float(np.finfo(dtype).eps)
+    if str(r.dtype) != dtype:
+        return ('noncontiguous-operand-dtype', dtype, str(r.dtype))
+    if str(s.dtype) != dtype or tuple(s.shape) != ():
+        return ('noncontiguous-operand-dtype', [dtype, []], [str(s.dtype), list(s.shape)])
+    if tuple(r.shape) != tuple(rc.shape):
+        return ('noncontiguous-operand-shape', list(rc.shape), list(r.shape))
+    scale = max(1.0, float(np.max(np.abs(rc.data))) if rc.data.size else 1.0)
+    err = float(np.max(np.abs(np.asarray(r.data, dtype=np.float64) - np.asarray(rc.data, dtype=np.float64)))) if rc.data.size else 0.0
+    if err > 1000 * eps * scale:
+        return ('noncontiguous-operand-values', 'within 1000 eps(%s) = %.1e of the result on the contiguous copy' % (dtype, 1000 * eps * scale), 'max difference %.3e' % err)
+    g, gc = t._grad, tc._grad
+    if g is None or str(g.dtype) != dtype or tuple(g.shape) != tuple(arr.shape):
+        return ('noncontiguous-operand-grad', [dtype, list(arr.shape)], None if g is None else [str(g.dtype), list(g.shape)])
+    gscale = max(1.0, float(np.max(np.abs(gc))))
+    gerr = float(np.max(np.abs(g.astype(np.float64) - gc.astype(np.float64))))
+    if gerr > 1000 * eps * gscale:
+        return ('noncontiguous-operand-grad-values', 'within %.1e of the gradient on the contiguous copy' % (1000 * eps * gscale), 'max difference %.3e' % gerr)
+    return None
+
+
+# ------------------------------------------------------------------------------------------------ float32 vs float64 agreement
+# NUMERICAL oracle with stated tolerances (the one place where a tolerance is unavoidable; not a proof).
+# The same float32-representable inputs are used in both dtypes (drawn, cast to float32, then to float64 for the reference).
+# Inputs are ill-conditioned: x = mean + std * N(0,1) with kappa = |mean| / std in {1e2, 1e3, 1e4}.
+# For every compared quantity q:   max |q32 - q64|  <=  C * eps32 * amp * scale
+#   scale = max |q64| (output scale), or an operand-magnitude bound where the op cancels (matmul / linear: n * max(|x| @ |w|);
+#           softmax input gradient s * (g - sum(g s)): 2 * max|s| * max|g|)
+#   amp   = kappa + 1 for quantities computed from centred data (x - mean): normalisation, variance, log-softmax, CE -
+#           a backward-stable algorithm in float32 cannot do better than eps32 * |mean| absolute on x - mean;
+#           1 for quantities of the magnitude of the data itself (means, sums, pooling, running_mean, mse of close values)
+AGREE_C = 64.0
+KAPPAS = (1e2, 1e3, 1e4)
+
+
+def agreement_recipes():
+    out = []
+    for kappa in KAPPAS:
+        for name in ('F.batch_norm', 'F.batch_norm_affine', 'BatchNorm1d', 'BatchNorm2d', 'mean', 'sum_dim', 'softmax', 'log_softmax',
+                     'mse_loss', 'cross_entropy', 'variance_composition', 'avg_pool1d', 'linear', 'matmul'):
+            out.append({'op': name, 'mean': kappa, 'std': 1.0, 'seed': 3})
+    out.append({'op': 'sum_wide_range', 'mean': 0.0, 'std': 1.0, 'seed': 3})
+    return out
+
+
+def run_agreement(impl, rc):
+    """returns [(quantity, max error, bound)] for one recipe"""
+    np, sg, TF, NF, nn = impl.np, impl.synapgrad, impl.TF, impl.NF, impl.nn
+    T = sg.Tensor
+    rs = np.random.RandomState(rc['seed'])
+    kappa = abs(rc['mean']) / rc['std']
+    eps32 = float(np.finfo(np.float32).eps)
+    op = rc['op']
+
+    def data(shape, centred=False):
+        a = rs.randn(*shape) * rc['std'] + (0.0 if centred else rc['mean'])
+        return a.astype(np.float32)
+    shape = {'BatchNorm2d': (8, 3, 5, 5), 'avg_pool1d': (2, 3, 12)}.get(op, (64, 6))
+    x32 = data(shape)
+    if op == 'sum_wide_range':
+        x32 = (rs.randn(64, 6) * np.logspace(-3, 3, 6)[None, :]).astype(np.float32)
+    extra = {'w': (rs.randn(6, 4)).astype(np.float32), 'b': rs.randn(4).astype(np.float32), 'g': (1 + 0.5 * rs.randn(6)).astype(np.float32),
+             'be': rs.randn(6).astype(np.float32), 'y': (x32 + rs.randn(*x32.shape).astype(np.float32)).astype(np.float32),
+             'lab': rs.randint(0, 6, size=64)}
+    res = {}
+    for dt in ('float32', 'float64'):
+        impl.reset_modes()
+        np.random.seed(1)
+        x = T(x32.astype(dt), requires_grad=True)
+        q = {}
+        params = []
+        if op in ('F.batch_norm', 'F.batch_norm_affine'):
+            if op == 'F.batch_norm':
+                out = NF.batch_norm(x)
+            else:
+                g, be = T(extra['g'].astype(dt), requires_grad=True), T(extra['be'].astype(dt), requires_grad=True)
+                out = NF.batch_norm(x, g, be)
+                params = [('gamma grad', g), ('beta grad', be)]
+        elif op in ('BatchNorm1d', 'BatchNorm2d'):
+            m = getattr(nn, op)(x32.shape[1], dtype=getattr(np, dt))
+            m.train()
+            out = m(x)
+            params = [('gamma grad', m.weight), ('beta grad', m.bias)]
+            q['running_mean'] = (m.running_mean.data, 'data')
+            q['running_var'] = (m.running_var.data, 'centred')
+        elif op == 'mean':
+            out = x.mean()
+        elif op in ('sum_dim', 'sum_wide_range'):
+            out = x.sum(dim=0)
+        elif op == 'softmax':
+            out = NF.softmax(x, 1)
+        elif op == 'log_softmax':
+            out = NF.log_softmax(x, 1)
+        elif op == 'mse_loss':
+            out = NF.mse_loss(x, T(extra['y'].astype(dt)))
+        elif op == 'cross_entropy':
+            out = NF.cross_entropy(x, T(extra['lab']))
+        elif op == 'variance_composition':
+            out = ((x - x.mean(dim=0, keepdims=True)) ** 2).mean(dim=0)
+        elif op == 'avg_pool1d':
+            out = NF.avg_pool1d(x, 3, 2)
+        elif op == 'linear':
+            w, b = T(extra['w'].T.copy().astype(dt), requires_grad=True), T(extra['b'].astype(dt), requires_grad=True)
+            out = NF.linear(x, w, b)
+        elif op == 'matmul':
+            out = x @ T(extra['w'].astype(dt))
+        else:
+            raise ValueError(op)
+        wts = np.linspace(-1, 1, max(out.data.size, 1)).reshape(out.shape)
+        (out * T(wts.astype(dt))).sum().backward()
+        centred_ops = ('F.batch_norm', 'F.batch_norm_affine', 'BatchNorm1d', 'BatchNorm2d', 'log_softmax', 'cross_entropy', 'variance_composition')
+        kind = 'centred' if op in centred_ops else ('cancel' if op in ('linear', 'matmul') else 'data')
+        q['output'] = (out.data, kind)
+        q['input grad'] = (x._grad, kind if op not in ('linear', 'matmul') else 'data')
+        for nm, p in params:
+            q[nm] = (p._grad, 'centred')
+        res[dt] = q
+    rows = []
+    for nm in res['float64']:
+        a32, kind = res['float32'][nm]
+        a64, _ = res['float64'][nm]
+        a32 = np.asarray(a32, dtype=np.float64); a64 = np.asarray(a64, dtype=np.float64)
+        if str(np.asarray(res['float32'][nm][0]).dtype) != 'float32' or a32.shape != a64.shape:
+            rows.append((nm, float('inf'), 0.0, 'dtype/shape'))
+            continue
+        err = float(np.max(np.abs(a32 - a64))) if a64.size else 0.0
+        scale = float(np.max(np.abs(a64))) if a64.size else 1.0
+        amp = 1.0
+        if kind == 'centred':
+            amp = kappa + 1.0
+        if kind == 'cancel':
+            scale = float(np.max(np.abs(x32.astype(np.float64)) @ np.abs(extra['w'].astype(np.float64)))) * x32.shape[1]
+        if op == 'softmax' and nm == 'input grad':
+            # s * (g - sum(g * s)) cancels: the operand-magnitude bound is 2 * max|s| * max|g| (upstream weights |g| <= 1)
+            scale = 2.0 * float(np.max(np.abs(np.asarray(res['float64']['output'][0], dtype=np.float64))))
+        bound = AGREE_C * eps32 * amp * max(scale, 1e-30)
+        rows.append((nm, err, bound, kind))
+    return rows
